@@ -4,7 +4,10 @@ use super::{
     Models,
     parameters::{Parameters, fqz_decode_params, parameter::Parameter},
 };
-use crate::{codecs::aac::RangeCoder, io::reader::num::read_uint7_as};
+use crate::{
+    codecs::{aac::RangeCoder, alloc_zeroed},
+    io::reader::num::read_uint7_as,
+};
 
 pub fn decode(mut src: &[u8]) -> io::Result<Vec<u8>> {
     let uncompressed_size = read_uncompressed_size(&mut src)?;
@@ -17,7 +20,7 @@ pub fn decode(mut src: &[u8]) -> io::Result<Vec<u8>> {
     let mut i = 0;
 
     let mut record = Record::default();
-    let mut dst = vec![0; uncompressed_size];
+    let mut dst = alloc_zeroed(uncompressed_size)?;
 
     let mut x = 0;
     let mut ctx = 0;
@@ -37,6 +40,9 @@ pub fn decode(mut src: &[u8]) -> io::Result<Vec<u8>> {
                 &mut rev_len,
             )?;
 
+            let is_reversible = params.gflags.has_reversed_values();
+            validate_record(&record, is_reversible, i, uncompressed_size - i)?;
+
             last_len = record.len;
 
             if record.is_duplicate {
@@ -54,8 +60,12 @@ pub fn decode(mut src: &[u8]) -> io::Result<Vec<u8>> {
         let param = &mut params.params[x];
         let q = models.qual[usize::from(ctx)].decode(&mut src, &mut range_coder)?;
 
-        let j = usize::from(q);
-        dst[i] = param.quality_map().map(|map| map[j]).unwrap_or(q);
+        dst[i] = match param.quality_map() {
+            Some(map) => map.get(usize::from(q)).copied().ok_or_else(|| {
+                io::Error::new(io::ErrorKind::InvalidData, "invalid quality map index")
+            })?,
+            None => q,
+        };
 
         ctx = fqz_update_context(param, q, &mut record);
 
@@ -106,7 +116,10 @@ fn fqz_new_record(
         }
     }
 
-    let param = &parameters.params[x];
+    let param = parameters
+        .params
+        .get(x)
+        .ok_or_else(|| io::Error::new(io::ErrorKind::InvalidData, "invalid parameter selector"))?;
 
     if !param.flags().is_fixed_length() || record.rec_no == 0 {
         last_len = read_length(src, range_coder, models)?;
@@ -131,6 +144,36 @@ fn fqz_new_record(
     record.prev_q = 0;
 
     Ok(x)
+}
+
+fn validate_record(
+    record: &Record,
+    is_reversible: bool,
+    decoded_len: usize,
+    remaining_len: usize,
+) -> io::Result<()> {
+    // A record has at least one quality score.
+    let mut is_valid = record.len > 0;
+
+    // A duplicate is a copy of the previous record, which has the same length.
+    if record.is_duplicate {
+        is_valid = is_valid && record.len <= decoded_len && record.len <= remaining_len;
+    }
+
+    // A record that is copied or reversed as a whole cannot be cut off by the end of the
+    // output.
+    if is_reversible {
+        is_valid = is_valid && record.len <= remaining_len;
+    }
+
+    if is_valid {
+        Ok(())
+    } else {
+        Err(io::Error::new(
+            io::ErrorKind::InvalidData,
+            "invalid record length",
+        ))
+    }
 }
 
 fn fqz_update_context(param: &mut Parameter, q: u8, record: &mut Record) -> u16 {
